@@ -56,16 +56,16 @@ Body(s) == SelectSeq(st.xs, LAMBDA x : x.sec = s /\ x.type \notin {TyOPT, TyTSIG
 RECURSIVE Flat(_)
 Flat(rss) == IF rss = <<>> THEN <<>>
              ELSE (IF rss[1].rds = <<>> THEN <<[name |-> rss[1].name, type |-> rss[1].type, cls |-> rss[1].cls,
-                                                 del |-> rss[1].del, ttl |-> rss[1].ttl, rd |-> <<>>]>>
+                                                 del |-> rss[1].del, ttl |-> rss[1].ttl, rd |-> <<>>, empty |-> TRUE]>>
                    ELSE [i \in 1..Len(rss[1].rds) |-> [name |-> rss[1].name, type |-> rss[1].type, cls |-> rss[1].cls,
-                                                       del |-> rss[1].del, ttl |-> rss[1].ttl, rd |-> rss[1].rds[i]]])
+                                                       del |-> rss[1].del, ttl |-> rss[1].ttl, rd |-> rss[1].rds[i], empty |-> FALSE]])
                   \o Flat(Tail(rss))
 \* the parser's representation of expected record x (RFC 2136: class ANY/NONE = deleting marker)
 RRIs(p, x) ==
     LET d == IF IsUpdate THEN DeletingOf(x.sec, x.cls) ELSE 0 IN
     /\ NameEqCI(p.name, x.name) /\ p.type = x.type /\ p.ttl = x.ttl
     /\ (IF d # 0 THEN p.cls = Zc /\ p.del = d ELSE p.cls = x.cls /\ p.del = 0)
-    /\ MatchItemsCI(p.rd, 0, x.items)
+    /\ p.empty = x.empty /\ MatchItemsCI(p.rd, 0, x.items)
 SectionIs(rss, s) == LET f == Flat(rss) b == Body(s) IN
     Len(f) = Len(b) /\ \A i \in 1..Len(b) : RRIs(f[i], b[i])
 QuestionIs(rss) ==
